@@ -14,6 +14,7 @@ class Block:
         self.P, self.F = P, F
         self.choose = choose or (lambda c: None)
         self.state = {}      # ("elem", key, k) / ("var", key) -> sympy
+        self.loops = None    # set to [] to evaluate for-loops as one symbolic iteration
         self.user_hook = hook
         self.sym = norm.Sym(P, F, inline_locals=False, hook=self.hook)
 
@@ -67,6 +68,39 @@ class Block:
                 self.stmt(s["c"][2])
             else:
                 raise AnalysisBroken("undecided branch `%s` at %s" % (norm.render(self.P, s["c"][0])[:60], self.F.nloc(s)))
+        elif k == "ForStmt" and self.loops is not None:
+            # one symbolic iteration: record what the body adds to each tracked variable
+            init = s["c"][0]
+            iv = init["c"][0] if init is not None and init.get("k") == "DeclStmt" and init["c"] else None
+            if iv is None or iv.get("k") != "VarDecl":
+                return
+            n = sp.Symbol("n_%s" % iv.get("n"), integer=True, positive=True)
+            pre = dict(self.state)
+            self.sym.env[iv["r"]] = n
+            marks = {}
+            written = set()
+            for x in self.F.walk(s["c"][3]):
+                if x.get("k") in ("BinaryOperator", "CompoundAssignOperator", "CXXOperatorCallExpr") and x.get("op") in norm.ASSIGN_OPS:
+                    t = x["c"][0]
+                    sub = astq.subscript(t)
+                    tk = self.target_key(sub[0] if sub else t)
+                    if tk is not None:
+                        written.add(tk)
+            for key in list(self.state):
+                if key[1] in written:
+                    marks[key] = sp.Symbol("PRE_%d" % len(marks))
+                    self.state[key] = marks[key]
+            self.stmt(s["c"][3])
+            delta = {}
+            for key, mark in marks.items():
+                after = self.state.get(key)
+                if after is not None and after != mark:
+                    delta[key] = sp.simplify(after - mark)
+            del self.sym.env[iv["r"]]
+            self.loops.append(dict(node=s, var=n, init=self.sym(iv["c"][0]) if iv.get("c") else None, cond=s["c"][1], delta=delta, pre={k: pre[k] for k in delta}))
+            self.state = pre
+            for key in delta:
+                self.state[key] = pre[key] + sp.Symbol("LOOPSUM_%d" % (len(self.loops) - 1))
         elif k == "DeclStmt":
             for v in s["c"]:
                 if v.get("k") == "VarDecl":
